@@ -78,7 +78,10 @@ def hnf(draw, maxdet=4):
 @st.composite
 def presentations(draw, allow_supercell=True, allow_lefthanded=True, identity_ok=True):
     p = {}
-    kinds = draw(st.lists(st.sampled_from(["shear", "rot", "trans", "perm", "super", "unwrap", "lh"]), min_size=0 if identity_ok else 1, max_size=4, unique=True))
+    # each component is drawn as an "omit" decision so that Hypothesis' bias towards minimal values includes it
+    kinds = [k for k in ["shear", "rot", "trans", "perm", "super", "unwrap", "lh"] if draw(st.integers(0, 2)) == 0]
+    if not identity_ok and not kinds:
+        kinds = ["shear"]
     if "shear" in kinds:
         p["shear"] = draw(gc.shears(max_steps=3, max_k=2))
     if "super" in kinds and allow_supercell:
@@ -97,11 +100,11 @@ def presentations(draw, allow_supercell=True, allow_lefthanded=True, identity_ok
 
 
 @st.composite
-def crystal_descs(draw, sgs=None, max_orbits=3, force_letters=None, anchor=None):
+def crystal_descs(draw, sgs=None, max_orbits=3, force_letters=None, anchor=None, species=None):
     sg = draw(st.integers(1, 230)) if sgs is None else draw(st.sampled_from(list(sgs)))
     ls = letters(sg)
     cm = spgref.CENTRING_MULT[spgref.centring(sg)]
-    n_orb = draw(st.integers(1, max_orbits))
+    n_orb = draw(st.integers(1, max_orbits)) if not force_letters else len(force_letters)
     orbits = []
     used0 = set()
     budget = 120 * cm       # atoms in the conventional cell; primitive reduction is applied when large
@@ -116,7 +119,10 @@ def crystal_descs(draw, sgs=None, max_orbits=3, force_letters=None, anchor=None)
         no_anchor = not anchor
     if not no_anchor and ls[-1] not in picks:
         picks.append(ls[-1])
-    zs = draw(st.lists(st.sampled_from(SPECIES), min_size=len(picks), max_size=len(picks)))
+    if species is not None:
+        zs = list(species)[:len(picks)]
+    else:
+        zs = draw(st.lists(st.sampled_from(SPECIES), min_size=len(picks), max_size=len(picks)))
     for l, z in zip(picks, zs):
         if dof(sg, l) == 0:
             if l in used0:
